@@ -35,7 +35,21 @@ ASSUMPTIONS = [
 
 @st.composite
 def gen_solve(draw, tier="quick"):
-    case = draw(kc.configs(tier, max_cond=12 if tier == "quick" else 40))
+    units = draw(st.integers(0, 5)) == 0
+    if units:
+        # a plain simple-kriging configuration (scale-equivariant to rounding), used for variables of very small / large units below
+        case = draw(kc.configs(tier, max_cond=12 if tier == "quick" else 40, variants=["simple"]))
+        c0 = case["cfg"]
+        c0["norm"], c0["trend"] = "None", "none"
+        if c0.get("mean", "none") not in ("none", "const"):
+            c0["mean"] = "const"
+        nv = len(case["cond_val"])
+        if not c0["exact"] and all(v == v for v in case["cond_val"]) and draw(st.booleans()):
+            c0["cond_err"] = "vector"
+            c0["err_val"] = draw(st.lists(logfloat(1e-3, 0.5), min_size=nv, max_size=nv))
+        case["cond_val"] = [min(max(float(v), -2.0), 3.0) if v == v else v for v in case["cond_val"]]
+    else:
+        case = draw(kc.configs(tier, max_cond=12 if tier == "quick" else 40))
     fdim = kc.field_dim(case["spec"])
     spec = case["spec"]
     m = draw(st.integers(1, 6))
@@ -46,6 +60,23 @@ def gen_solve(draw, tier="quick"):
     else:
         ls = spec["len_scale"] / (spec.get("rescale") or 1.0)
         case["pos"] = draw(gens.point_cloud(fdim, n_min=m, n_max=m, kinds=("cloud",), scale=max(1.0, ls)))
+    cfg = case["cfg"]
+    if (cfg.get("norm", "None") == "None" and cfg.get("trend", "none") == "none" and cfg.get("mean", "none") in ("none", "const")
+            and not kc.is_unbiased(cfg) and not kc.has_functional_drift(cfg) and not cfg.get("n_ext", 0)):
+        # unit of the variable: variance, nugget and measurement errors of order 10^e, data and constant mean of order 10^(e/2)
+        ue = draw(st.sampled_from([0, 0, 0, -10, -16, 6])) if not units else draw(st.sampled_from([-10, -16, 6, -10]))
+        if ue:
+            u = 10.0 ** (ue / 2)
+            spec["var"] = float(spec["var"] * 10.0**ue)
+            spec["nugget"] = float(spec["nugget"] * 10.0**ue)
+            if cfg.get("cond_err") == "scalar":
+                cfg["err_val"] = float(cfg["err_val"] * 10.0**ue)
+            elif cfg.get("cond_err") == "vector":
+                cfg["err_val"] = [float(e * 10.0**ue) for e in cfg["err_val"]]
+            case["cond_val"] = [v if isinstance(v, str) or v != v else float(v * u) for v in case["cond_val"]]
+            if "mean_val" in cfg:
+                cfg["mean_val"] = float(cfg["mean_val"] * u)
+            case["unit"] = u
     case["chunk"] = draw(st.sampled_from([None, None, 1, 2, 3]))
     case["struct"] = draw(st.booleans())
     case["only_mean"] = draw(st.sampled_from([False, False, False, True]))
@@ -56,7 +87,8 @@ def gen_solve(draw, tier="quick"):
 
 def _scale(case, ref):
     v = common.farr(case["cond_val"])
-    return max(1.0, float(np.nanmax(np.abs(v))), float(np.max(np.abs(ref))) if np.all(np.isfinite(ref)) else 1.0)
+    u = float(case.get("unit", 1.0))
+    return max(u, float(np.nanmax(np.abs(v))), float(np.max(np.abs(ref))) if np.all(np.isfinite(ref)) else u)
 
 
 def _nontrivial(case, cond_pos, pos, model):
@@ -86,6 +118,8 @@ def check_solve(case, rec):
     tags = dict(gens.spec_tags(spec), variant=cfg["variant"], geo=cfg["geo"], norm=cfg.get("norm", "None"),
                 exact=cfg["exact"], cond_err=cfg.get("cond_err"), pseudo_inv=cfg["pseudo_inv"])
     rec.label(cfg["variant"], cfg["geo"], spec["cls"], "exact" if cfg["exact"] else "inexact", "err_" + str(cfg.get("cond_err")))
+    if case.get("unit"):
+        rec.label(f"unit_{case['unit']:g}", f"unit_{case['unit']:g}_err_{cfg.get('cond_err')}")
     cond_pos = np.array(case["cond_pos"], dtype=float).reshape(fdim, -1)
     pos = np.array(case["pos"], dtype=float).reshape(fdim, -1)
     only_mean = case["only_mean"]
